@@ -156,6 +156,9 @@ def draw_kind(rng: random.Random, counter: int) -> dict:
     out = {"kind": k, "focus": None, "mix": None}
     if k == "rendezvous":
         groups = sorted(S.shared_lines()) + sorted({c.co_filename for c in S.code_groups()[2]}) + [None]
+        novel = S.novel_groups()
+        if novel and rng.random() < 0.6:
+            groups = novel  # state that the tree under test shares and the pinned tree did not: the prime suspect
         focus = groups[(counter + rng.randrange(3)) % len(groups)]
         out["focus"] = focus
         if focus is not None:
@@ -239,6 +242,7 @@ def run_item(item: dict) -> dict:
     # tables derived from the loaded code are built once per shard worker; the simulated processes (forks) inherit them
     S.code_groups()
     S.shared_lines()
+    S.novel_groups()
     pool_seed, tier = item["pool_seed"], item["tier"]
     pool = forkrun(hw.make_pool, pool_seed, POOL_SIZES, timeout=300)
     res = {"pool_seed": pool_seed, "schedules": 0, "events": 0, "switches": 0, "violations": [], "strategies": {}, "switch_kinds": {},
